@@ -21,6 +21,7 @@ Next == \/ /\ pi > 0 /\ ~have /\ \E a \in Assignments(Pool[pi]) : asg' = a
 HasCase == pi > 0 /\ have
 RoundTripInv == HasCase => RoundTrip(Pool[pi], asg)
 Emit == /\ (HasCase => PrintT(ToJson([pat |-> PoolText[pi], asg |-> asg, built |-> Built(Pool[pi], asg),
-                                      routable |-> Routable(Pool[pi], asg), unique |-> UniqueBack(Pool[pi], asg)])))
+                                      routable |-> Routable(FALSE, Pool[pi], asg), routable_strict |-> Routable(TRUE, Pool[pi], asg),
+                                      unique |-> UniqueBack(Pool[pi], asg)])))
         /\ ((pi = 0 /\ ops # <<>>) => PrintT(ToJson([ops |-> ops, table |-> NameTable(ops)])))
 =============================================================================
